@@ -1,5 +1,6 @@
 SPECIFICATION Spec
 CONSTANTS
+  PDiv = 1
   Keys = {1,2,3,4,5,6,7}
   Prios = {1,2,3}
   Inits <- InitsPQ
